@@ -9,7 +9,12 @@ of dE/da = gamma(a)/beta(a) E is obtained from mpmath's Taylor-series ODE solver
 * perturbative-exact must converge geometrically in ev_op_max_order: error <= C (a_max/rho)^K with rho
   the radius of convergence of 1/beta (smallest root of the truncated beta polynomial);
 * the QED singlet (4x4) and valence (2x2) iterated kernels, fed coupling steps sampled from a smooth
-  trajectory (a_s(s), a_em(a_s)), must converge to the path-ordered solution along that trajectory.
+  trajectory (a_s(s), a_em(a_s)), must converge to the path-ordered solution along that trajectory, and
+  must BE the ordered product of one-step exponentials built from the supplied step borders and the supplied
+  (a_s, a_em) of every step (exact step-product oracle: a scheme with the right limit that ignores the
+  supplied values is not "along the supplied coupling steps");
+* perturbative-exact: besides the envelope, the error must fall geometrically between the successive deciding
+  orders K = 10 -> 20 -> 30.
 """
 
 import numpy as np
@@ -25,7 +30,9 @@ LEVEL_TEXT = (
     "on every lattice point the iterated and perturbative exact singlet kernels (and the QED 4x4 / 2x2 "
     "iterated kernels) are compared with an independent high-precision solution of the defining matrix ODE; "
     "the convergence order in the number of steps, the Richardson limit and the geometric convergence in "
-    "ev_op_max_order are checked"
+    "ev_op_max_order (envelope and decrease between successive orders) are checked; the QED kernels are in addition "
+    "compared, at 1/4/10/40 steps, with the ordered product of one-step matrix exponentials (scaling-and-squaring Taylor "
+    "series) built from exactly the supplied step borders and per-step (a_s, a_em) values"
 )
 LEVEL_NOTE = (
     "decides the property on the lattice only; beta coefficients are taken from eko.beta as inputs (C20 checks "
@@ -39,8 +46,11 @@ ITERS = [10, 40, 160, 640]
 KS = [3, 5, 10, 20, 30]
 RATIO_MIN = 12.0
 NOISE = 1e-12  # errors below this are rounding, not discretisation
-RICH_TOL = 5e-8
+RICH_TOL = 5e-8  # measured quick 2.3e-11 (QCD) / 1.3e-12 (QED); thorough (long paths 0.05 <-> 0.002/0.005) 7.1e-10 (QCD) / 2.8e-9 (QED): no room to tighten
 PERT_C = 50.0
+PERT_RATIO_GAP = 10  # successive deciding orders K = 10 -> 20 -> 30
+STEP_NS = [1, 4, 10, 40]  # step counts of the exact step-product oracle (QED kernels)
+STEP_TOL = 1e-12  # |E - P| <= STEP_TOL max(1, |P|): rounding only
 QED_ORDERS = [[1, 1], [1, 2], [2, 1], [2, 2], [3, 1], [3, 2], [4, 1], [4, 2]]
 QED_ORDERS_QUICK = [[1, 1], [2, 2], [3, 1], [4, 2]]
 
@@ -74,6 +84,25 @@ def qed_aem_of_a(variant, a0, a1, e0):
     if variant == "geom":
         return lambda a: mp.mpf(e0)
     return lambda a: mp.mpf(e0) * (1 + mp.mpf("0.3") * (a - mp.mpf(a0)) / (mp.mpf(a1) - mp.mpf(a0)))
+
+
+def step_product(g, bg, al, ah):
+    """The discretisation the statement names, written from the definition and independent of any
+    eigen-decomposition: P = prod_k exp( G(ah_k, e_k) / B(ah_k, e_k) (al_{k+1} - al_k) ) (later steps on the
+    left), G = sum_ij gamma[i,j] a^i e^j, B = sum_ij beta[i,j] a^(i+1) e^j, with (a, e) = the SUPPLIED
+    middle values ah[k] of every step and al the supplied borders."""
+    dim = g.shape[-1]
+    P = np.eye(dim, dtype=complex)
+    for k in range(len(al) - 1):
+        a, e = float(ah[k, 0]), float(ah[k, 1])
+        G = np.zeros((dim, dim), dtype=complex)
+        B = 0.0
+        for i in range(g.shape[0]):
+            for j in range(g.shape[1]):
+                G = G + g[i, j] * a**i * e**j
+                B += bg[i, j] * a ** (i + 1) * e**j
+        P = ode.expm_small(G / B * (al[k + 1] - al[k])) @ P
+    return P
 
 
 def _convergence(res, sig, where, errs, info, pre):
@@ -138,16 +167,32 @@ def eval_qcd(case, res, info):
     info["max_a_over_rho"] = q
     try:
         for its in (1, 10):
+            perr = {}
             for K in KS:
                 e = np.asarray(s.dispatcher((order, 0), EM.PERTURBATIVE_EXACT, g.copy(), a1, a0, nf, its, (K, 0)))
                 err = _rel(e, ref)
+                perr[K] = err
                 bound = PERT_C * q**K + NOISE
                 info["max_perturbative_err_over_bound"] = max(info.get("max_perturbative_err_over_bound", 0.0), err / bound)
+                info[f"max_perturbative_err_K{K}"] = max(info.get(f"max_perturbative_err_K{K}", 0.0), err)
+                info[f"max_perturbative_err_over_bound_K{K}"] = max(info.get(f"max_perturbative_err_over_bound_K{K}", 0.0), err / bound)
                 if not err <= bound:
                     res.fail(
                         f"{sig}/geometric-convergence",
                         f"{where} ev_op_iterations={its} ev_op_max_order={K}: relative error {err:.3e} > "
                         f"{PERT_C} (a_max/rho)^K = {bound:.3e} (rho={rho:.4g}); got={e.tolist()} ref={ref.tolist()}",
+                    )
+            # the decrease itself ("at the documented rate"): geometric between successive deciding orders
+            for K0 in (10, 20):
+                K1 = K0 + PERT_RATIO_GAP
+                bound = perr[K0] * PERT_C * q**PERT_RATIO_GAP + NOISE
+                kk = f"max_perturbative_successive_over_bound_K{K0}to{K1}"
+                info[kk] = max(info.get(kk, 0.0), perr[K1] / bound)
+                if not perr[K1] <= bound:
+                    res.fail(
+                        f"{sig}/successive-orders",
+                        f"{where} ev_op_iterations={its}: relative error {perr[K0]:.3e} at ev_op_max_order={K0} but {perr[K1]:.3e} at {K1} "
+                        f"> err({K0}) x {PERT_C} (a_max/rho)^{PERT_RATIO_GAP} = {bound:.3e} (rho={rho:.4g})",
                     )
     except Exception as e:  # noqa
         res.fail(sig + "/raises", f"{where}: {type(e).__name__}: {e}")
@@ -174,6 +219,23 @@ def eval_qed(case, res, info):
     where = f"{kind} tower={name} order=({o0},{o1}) nf={nf} steps={variant} aem0={e0} a0={a0} a1={a1}"
     sig = f"{fn}/order=({o0},{o1})/steps={variant}"
     outs = []
+    # --- "along the supplied coupling steps", literally: the kernel IS the step product built from the supplied
+    # borders and the supplied (a_s, a_em) of every step (decided independently of the convergence below)
+    for n in STEP_NS:
+        try:
+            al, ah = qed_steps(variant, a0, a1, e0, n)
+            E = np.asarray(disp((o0, o1), EM.ITERATE_EXACT, g.copy(), al, ah, nf, n, (10, 0)))
+            P = step_product(g, bg, al, ah)
+            d = float(np.abs(E - P).max() / max(1.0, float(np.abs(P).max()))) if np.all(np.isfinite(E)) else float("inf")
+            info["max_qed_step_product_over_tol"] = max(info.get("max_qed_step_product_over_tol", 0.0), d / STEP_TOL)
+            if not d <= STEP_TOL:
+                res.fail(
+                    f"{sig}/step-product",
+                    f"{where} iterations={n}: kernel differs from prod_k exp(gamma(ah_k,e_k)/beta(ah_k,e_k) (al_k+1 - al_k)) built from the "
+                    f"supplied steps by {d:.3e} > {STEP_TOL}; got={E.tolist()} expected={P.tolist()}",
+                )
+        except Exception as e:  # noqa
+            res.fail(sig + "/raises", f"{where} iterations={n}: {type(e).__name__}: {e}")
     try:
         for n in ITERS:
             al, ah = qed_steps(variant, a0, a1, e0, n)
@@ -228,13 +290,20 @@ def run(ctx):
         f"complete product: QCD {nq} points = 3 non-commuting complex 2x2 towers x order 2-4 x nf x ordered coupling pairs "
         f"from {L_A if ctx.thorough() else PAIRS_QUICK}; QED {len(cs) - nq} points = (4x4 singlet, 2x2 valence) x 2 dense towers x "
         "orders x 2 step shapes (geometric with fixed a_em; uniform in 1/a_s with the middle taken in the parameter and running a_em) "
-        "x a_em in {6e-4, 4e-3} x nf x pairs; per point iterate with 10/40/160/640 steps (ratio test, Richardson limit) and, for QCD, "
-        "perturbative-exact with ev_op_max_order 3/5/10/20/30 x ev_op_iterations 1/10; non-trivial = all (every tower is non-commuting)"
+        "x a_em in {6e-4, 4e-3} x nf x pairs; per point iterate with 10/40/160/640 steps (ratio test, Richardson limit), for QED also "
+        f"{STEP_NS} steps against the exact step product of the supplied steps, and, for QCD, "
+        "perturbative-exact with ev_op_max_order 3/5/10/20/30 x ev_op_iterations 1/10 (envelope per K, decrease 10 -> 20 -> 30); "
+        "non-trivial = all (every tower is non-commuting)"
     )
     ctx.assumptions += [
         "true solution = mpmath.odefun (tol 1e-18, 30 digits) of dE/da = [sum gamma_i a^i / sum beta_i a^(i+1)] E, for QED with "
         "gamma and beta summed over the (a_s, a_em) grid and a_em a prescribed function of a_s",
         f"documented rate = midpoint rule: error ratio per x4 steps >= {RATIO_MIN} (measured 15.9-16.0); Richardson limit within {RICH_TOL}",
+        f"'along the supplied coupling steps' = the kernel equals prod_k exp(gamma(ah_k, e_k)/beta(ah_k, e_k) (al_k+1 - al_k)), later steps on "
+        f"the left, with (ah_k, e_k) the supplied a_half row of step k, to {STEP_TOL} relative to max(1,|P|) (rounding; measured <= 5e-15); in the "
+        "'param' step shape the supplied a_s middle differs from the mean of the borders and a_em differs from step to step",
+        f"perturbative-exact, decrease: err(K+{PERT_RATIO_GAP}) <= err(K) x {PERT_C} (a_max/rho)^{PERT_RATIO_GAP} + {NOISE} for K = 10, 20 "
+        "(K = 3, 5 are pre-asymptotic and only bounded by the envelope)",
         f"perturbative-exact: error <= {PERT_C} (a_max/rho)^K + {NOISE} (geometric envelope; the error itself need not be monotone: "
         "measured 4.2e-2 -> 4.6e-2 between K=3 and K=5 at a_max/rho = 0.57)",
         "nothing is claimed between lattice points",
